@@ -52,7 +52,8 @@ def main():
                                  'summary': out.strip().splitlines()[-1][:200] if out.strip() else ''}
         dst = '/verif/seeded/%s' % mid
         os.makedirs(dst, exist_ok=True)
-        shutil.copy(patch, os.path.join(dst, 'patch.diff'))
+        if os.path.realpath(patch) != os.path.realpath(os.path.join(dst, 'patch.diff')):
+            shutil.copy(patch, os.path.join(dst, 'patch.diff'))
         json.dump(meta, open(os.path.join(dst, 'meta.json'), 'w'), indent=1)
         print(mid, 'tests_same=%s' % meta['tests_same_as_unchanged'],
               {k: v['silent'] for k, v in meta['checks'].items()})
